@@ -11,7 +11,7 @@ history = [revision, ...]; revision = {
    "split": bool       split contiguous runs into extra subsections / index ranges,
    "pad_free": bool    cover min..max with one range, undefined numbers as free entries,
    "w": [a,b,c]        xref stream field widths, "index_default": bool (Index omitted: 0..Size),
-   "flate": bool, "png_up": bool, "objstm_flate": bool
+   "flate": bool, "png_up": bool (+ "png_rows": [tags], "png_predictor": 10..15), "objstm_flate": bool
 }
 """
 import struct
@@ -156,15 +156,13 @@ def write_history(history, header=b"%PDF-1.7\n%\xe2\xe3\xcf\xd3\n", tail=b"\n", 
             d.update(extra_dict)
             if rev.get("flate"):
                 if rev.get("png_up"):
+                    # PNG prediction: the per-row tag decides the filter (Up for every row unless "png_rows" gives a
+                    # cycle of tags 0..4); the /Predictor value >= 10 only announces that rows are tagged.
+                    from vlib import filters as _F
                     cols = sum(w)
-                    pred = bytearray()
-                    prior = bytes(cols)
-                    for row in rows:
-                        pred.append(2)
-                        pred += bytes((a - b) & 255 for a, b in zip(row, prior))
-                        prior = row
-                    data = bytes(pred)
-                    d[b"DecodeParms"] = W.D(Predictor=12, Columns=cols)
+                    tags = rev.get("png_rows") or [2]
+                    data = _F.png_forward(data, 1, cols, 8, tags)
+                    d[b"DecodeParms"] = W.D(Predictor=rev.get("png_predictor", 12), Columns=cols)
                 data = zlib.compress(data)
                 d[b"Filter"] = W.N("FlateDecode")
             return W.obj_bytes(num, 0, W.Stream(d, data))
